@@ -290,9 +290,12 @@ class World:
                 rest = segs[i:]
                 if not rest or rest == ['self']:
                     return True
-                if modp in self.raw_mods:
+                if rest[0] in self.emitted[modp]:
                     return True
-                return rest[0] in self.emitted[modp]
+                for rmod, text, _ in self.vc.raws:
+                    if rmod == modp and re.search(r'\b(fn|struct|enum|const|type|trait)\s+' + re.escape(rest[0]) + r'\b', text):
+                        return True
+                return False
         return True
 
     def _feature_hidden(self, key):
@@ -692,6 +695,10 @@ class World:
             if n >= len(it['closures']):
                 raise Inconclusive(f'lost anchor: {cname} has {len(it["closures"])} closures, contract names closure {n}')
             cl = it['closures'][n]
+            # Verus rejects `_` as a closure parameter: give it a name (never used)
+            ptxt = src[cl['or1'][1]:cl['or2'][0]].decode()
+            if ptxt.strip() == '_':
+                edits.append((cl['or1'][1], cl['or2'][0], b'_vf_unused'))
             s = cl['or2'][1]
             e = cl['body'][0]
             if cl['body_is_block']:
